@@ -448,6 +448,14 @@ def _pixels(rng: random.Random, n: int) -> bytes:
 
 
 def run_config(cfg: dict) -> list[tuple[str, str]]:
+    """_run_config under an alarm: a configuration on which save/read does not come back is a failing input."""
+    try:
+        return _with_alarm(60, lambda: _run_config(cfg))
+    except TimeoutError as e:
+        return [('save-read-does-not-return', f'building, saving and reading back this texture: {e} (milliseconds on the unchanged tree)')]
+
+
+def _run_config(cfg: dict) -> list[tuple[str, str]]:
     """Build the VTF described by cfg, save it, read it back, and return [(violation key, description)]."""
     from srctools.vtf import VTF, ImageFormats, VTFFlags, Resource, ResourceID, SheetSequence, TexCoord
     from srctools.math import Vec
@@ -917,18 +925,42 @@ class _FakeWx:
 
 
 def _with_alarm(seconds: int, fn):
-    """run fn(); a call into the implementation that does not come back is a failing input, not a hung check"""
+    """run fn(); a call into the implementation that does not come back is a failing input, not a hung check.
+    Nests: an enclosing alarm is re-armed with what is left of it."""
     import signal
+    import time
 
     def onalarm(signum, frame):
         raise TimeoutError(f'no result after {seconds}s')
     old = signal.signal(signal.SIGALRM, onalarm)
-    signal.alarm(seconds)
+    t0 = time.time()
+    prev = signal.alarm(seconds)
     try:
         return fn()
     finally:
         signal.alarm(0)
         signal.signal(signal.SIGALRM, old)
+        if prev:
+            signal.alarm(max(1, prev - int(time.time() - t0)))
+
+
+def _stage(ck: Ck, name: str, fn, *args, alarm: bool = True) -> None:
+    """One stage that calls into srctools.  Whatever a fault makes the implementation do - raise something the stage does not
+    expect, or never return - ends as a VIOLATION that names the stage, not as INTERNAL-ERROR or a hung check.  The limit is
+    far above what the stage needs (a few seconds in the quick tier, a few minutes in the thorough one, on a loaded machine)."""
+    import traceback
+    limit = 3000
+    try:
+        if alarm:
+            _with_alarm(limit, lambda: fn(ck, *args))
+        else:
+            fn(ck, *args)
+    except TimeoutError as e:
+        ck.violation(f'implementation-does-not-return-in-{name}',
+                     f'stage {name}: a call into srctools did not return ({e}); the stage takes seconds on the unchanged tree', {'stage': name})
+    except Exception as e:      # noqa: BLE001
+        ck.violation(f'{name}-raises-{type(e).__name__}',
+                     f'stage {name}: unexpected {type(e).__name__}: {e}\n' + traceback.format_exc()[-1500:], {'stage': name})
 
 
 def paths_case(w: int, h: int, salt: int = 0) -> list[tuple[str, str]]:
@@ -1442,7 +1474,7 @@ def corr_container(ck: Ck) -> None:
     n = ck.budget(14, 60)
     cfgs = []
     forced = [dict(version=2), dict(version=3, resources=[['CRC', 0, 7], ['KVD', 0, '0102030405']]), dict(version=4, cube=True, depth=1),
-              dict(version=5, cube=True, depth=1), dict(version=5, depth=3, frames=2)]
+              dict(version=5, cube=True, depth=1), dict(version=5, cube=False, depth=3, frames=2)]
     for i in range(n):
         c = cont_config(ck.rng, fmts)
         if i < len(forced):
@@ -2009,16 +2041,16 @@ def run(ck: Ck) -> None:
         ck.theorems('Props/C15.v')
         for g in groups:
             g.merge()
-        corr_container(ck)
+        _stage(ck, 'container-correspondence', corr_container, alarm=False)     # waits for coqc: no alarm, exceptions only
         codecs_done()
-    corr_frames(ck, bool(built))
-    search_codecs(ck)
-    search_bounds(ck)
-    search_paths(ck)
-    search_filters(ck)
-    search_files(ck)
-    search_cube_override(ck)
-    search_full_chain(ck)
+    _stage(ck, 'frame-histories', corr_frames, bool(built), alarm=False)
+    _stage(ck, 'codec-search', search_codecs)
+    _stage(ck, 'bounds-search', search_bounds)
+    _stage(ck, 'pixel-path-search', search_paths)
+    _stage(ck, 'filter-search', search_filters)
+    _stage(ck, 'file-search', search_files)
+    _stage(ck, 'cubemap-override-search', search_cube_override)
+    _stage(ck, 'full-chain-search', search_full_chain)
     # which broken obligations do the concrete violations explain?  Only NEW violations count: a known finding is reported
     # on every run and explains nothing that breaks today (round 3: the known mipmap-count finding used to explain a
     # failed layout translation, so a tree on which the proof side was not checked at all could exit 0).
@@ -2138,6 +2170,9 @@ def replay(data: dict) -> int:
         base, n, levels = history_base(r['seed'])
         for k, w in check_history(base, n, levels, r['history']):
             print(k, '::', w)
+        return 0
+    if 'stage' in r:
+        print(f"stage {r['stage']}: run the check again; the finding is about the stage as a whole: {data.get('what', '')}")
         return 0
     if 'dxt' in r:
         for k, w in dxt_case(*r['dxt']):
